@@ -46,11 +46,10 @@ fn instr(i: &Instruction) -> Sexp {
     tagged("i", vec![st(i.to_quil_or_debug()), atom(kind(i))])
 }
 
+/// identity of a calibration: the Debug text of its identifier (structural: name, modifiers, parameters,
+/// qubits / name, qubit, target) — not the Quil text and not the library's own `PartialEq`
 fn source(c: &CalibrationSource) -> String {
-    match c {
-        CalibrationSource::Calibration(id) => id.to_quil_or_debug(),
-        CalibrationSource::MeasureCalibration(id) => id.to_quil_or_debug(),
-    }
+    format!("{c:?}")
 }
 
 enum Node {
@@ -140,6 +139,25 @@ fn entry(e: &SourceMapEntry<InstructionIndex, ExpansionResult<CalibrationExpansi
     list(vec![nat(e.source_location().0 as u64), target(e.target_location())])
 }
 
+/// `list_sources` / `list_targets` of every nested map, in preorder over the `Rewritten` entries
+fn nested_queries(map: &Map, out: &mut Vec<Sexp>) {
+    for e in map.entries() {
+        if let ExpansionResult::Rewritten(x) = e.target_location() {
+            let inner = x.expansions();
+            let len = x.range().end.0.saturating_sub(x.range().start.0);
+            let max_src = inner.entries().iter().map(|e| e.source_location().0).max().map_or(0, |m| m + 1);
+            let sources: Vec<Sexp> = (0..=len)
+                .map(|t| list(inner.list_sources(&InstructionIndex(t)).into_iter().map(|s| nat(s.0 as u64)).collect()))
+                .collect();
+            let targets: Vec<Sexp> = (0..=max_src)
+                .map(|s| list(inner.list_targets(&InstructionIndex(s)).into_iter().map(target).collect()))
+                .collect();
+            out.push(list(vec![list(sources), list(targets)]));
+            nested_queries(inner, out);
+        }
+    }
+}
+
 fn run_case(ctx: &mut Ctx, p: &Program) {
     let src: Vec<Instruction> = p.body_instructions().cloned().collect();
     let mut depth = 0usize;
@@ -150,8 +168,15 @@ fn run_case(ctx: &mut Ctx, p: &Program) {
     };
     let n_src = src.len();
     ctx.case(input, || match p.expand_calibrations_with_source_map() {
-        Err(quil_rs::program::ProgramError::RecursiveCalibration(_)) => tagged("err", vec![atom("recursive")]),
-        Err(_) => tagged("err", vec![atom("other")]),
+        Err(e) => {
+            // the error must be printable; the map-less entry point must fail too
+            let _ = format!("{e} {e:#} {e:?}");
+            let other = p.expand_calibrations().is_err();
+            match e {
+                quil_rs::program::ProgramError::RecursiveCalibration(_) if other => tagged("err", vec![atom("recursive")]),
+                _ => tagged("err", vec![atom("other")]),
+            }
+        }
         Ok((q, map)) => {
             let map: Map = map;
             let body: Vec<Instruction> = q.body_instructions().cloned().collect();
@@ -163,6 +188,41 @@ fn run_case(ctx: &mut Ctx, p: &Program) {
             let targets: Vec<Sexp> = (0..=n_src)
                 .map(|s| list(map.list_targets(&InstructionIndex(s)).into_iter().map(target).collect()))
                 .collect();
+            // instruction-level entry point: `Calibrations::expand_with_detail` (before hoisting) and its
+            // detail-less sibling `Calibrations::expand`
+            let details: Vec<Sexp> = src
+                .iter()
+                .map(|i| match p.calibrations.expand_with_detail(i, &[]) {
+                    Ok(Some(o)) => {
+                        let plain = p.calibrations.expand(i, &[]).ok().flatten();
+                        let same_plain = plain.as_ref() == Some(&o.new_instructions);
+                        tagged(
+                            "d",
+                            vec![
+                                list(o.new_instructions.iter().map(instr).collect()),
+                                target(&ExpansionResult::Rewritten(o.detail)),
+                                boolean(same_plain),
+                            ],
+                        )
+                    }
+                    Ok(None) => atom("none"),
+                    Err(_) => atom("err"),
+                })
+                .collect();
+            // `list_sources(&CalibrationSource)` for every calibration of the program
+            let mut by_cal: Vec<Sexp> = Vec::new();
+            for c in p.calibrations.iter_calibrations() {
+                let c = CalibrationSource::Calibration(c.identifier.clone());
+                by_cal.push(list(vec![st(source(&c)), list(map.list_sources(&c).into_iter().map(|s| nat(s.0 as u64)).collect())]));
+            }
+            for c in p.calibrations.iter_measure_calibrations() {
+                let c = CalibrationSource::MeasureCalibration(c.identifier.clone());
+                by_cal.push(list(vec![st(source(&c)), list(map.list_sources(&c).into_iter().map(|s| nat(s.0 as u64)).collect())]));
+            }
+            let mut nested = Vec::new();
+            nested_queries(&map, &mut nested);
+            // a second call gives the same answer
+            let again = p.expand_calibrations_with_source_map().map(|(q2, m2)| q2 == q && m2 == map).unwrap_or(false);
             tagged(
                 "ok",
                 vec![
@@ -170,7 +230,10 @@ fn run_case(ctx: &mut Ctx, p: &Program) {
                     list(map.entries().iter().map(entry).collect()),
                     list(sources),
                     list(targets),
-                    boolean(same),
+                    boolean(same && again),
+                    list(details),
+                    list(by_cal),
+                    list(nested),
                 ],
             )
         }
@@ -200,6 +263,21 @@ fn item(code: &str) -> Instruction {
         "E" => parse_one("PRAGMA EXTERN foo \"(x : INTEGER)\""),
         "G" => parse_one("DEFGATE H2:\n\t1, 0\n\t0, 1"),
         "C" => parse_one("DEFCAL V 0:\n\tNOP"),
+        "Mc" => parse_one("DEFCAL MEASURE 1:\n\tNOP"),
+        "Ci" => parse_one("DEFCIRCUIT CC q:\n\tNOP"),
+        // PRAGMA EXTERN with two arguments / without a name: hoisted like any PRAGMA named EXTERN
+        "E2" => parse_one("PRAGMA EXTERN foo bar \"(x : INTEGER)\""),
+        "E0" => parse_one("PRAGMA EXTERN \"(x : INTEGER)\""),
+        // pragmas that are NOT hoisted: other names, other letter case, with arguments
+        "Pe" => parse_one("PRAGMA extern foo \"(x : INTEGER)\""),
+        "Px" => parse_one("PRAGMA EXTERNAL foo 1 \"data\""),
+        // a gate with a modifier (matches only a calibration with the same modifiers)
+        "dX" | "dY" => Instruction::Gate(Gate {
+            name: code[1..].to_string(),
+            parameters: vec![],
+            qubits: vec![Qubit::Fixed(0)],
+            modifiers: vec![quil_rs::instruction::GateModifier::Dagger],
+        }),
         other => panic!("unknown item {other}"),
     }
 }
@@ -209,15 +287,24 @@ fn items(codes: &str) -> Vec<Instruction> {
 }
 
 fn defcal(name: &str, qubit: Qubit, body: Vec<Instruction>) -> Instruction {
+    // a leading `d` in the name asks for the DAGGER variant of the calibration
+    let (modifiers, name) = match name.strip_prefix('d') {
+        Some(rest) => (vec![quil_rs::instruction::GateModifier::Dagger], rest),
+        None => (vec![], name),
+    };
     Instruction::CalibrationDefinition(CalibrationDefinition::new(
-        CalibrationIdentifier { modifiers: vec![], name: name.to_string(), parameters: vec![], qubits: vec![qubit] },
+        CalibrationIdentifier { modifiers, name: name.to_string(), parameters: vec![], qubits: vec![qubit] },
         body,
     ))
 }
 
 fn defcal_measure(body: Vec<Instruction>) -> Instruction {
+    defcal_measure_on(Qubit::Fixed(0), body)
+}
+
+fn defcal_measure_on(qubit: Qubit, body: Vec<Instruction>) -> Instruction {
     Instruction::MeasureCalibrationDefinition(MeasureCalibrationDefinition::new(
-        MeasureCalibrationIdentifier { name: None, qubit: Qubit::Fixed(0), target: None },
+        MeasureCalibrationIdentifier { name: None, qubit, target: None },
         body,
     ))
 }
@@ -271,6 +358,23 @@ fn run(ctx: &mut Ctx) {
         program(&[("X", f0.clone(), "N X")], None, "X"),
         // every hoisted kind
         program(&[("X", f0.clone(), "Da F Wf E G C P N")], None, "X V"),
+        program(&[("X", f0.clone(), "Mc Ci E2 E0 N Y"), ("Y", f0.clone(), "E0 T Mc")], None, "X"),
+        // pragmas that are not hoisted, at and before a nested expansion
+        program(&[("X", f0.clone(), "P Y Pe Px Y N"), ("Y", f0.clone(), "P T Pe")], None, "U X"),
+        program(&[("X", f0.clone(), "Pe Px P"), ("Y", f0.clone(), "X Px X")], None, "Y Y"),
+        // two and three hoisted instructions in one top-level expansion, followed by a nested call
+        program(&[("X", f0.clone(), "Da Db Y N"), ("Y", f0.clone(), "N T")], None, "X"),
+        program(&[("X", f0.clone(), "Da N Db E Y Y Dc N"), ("Y", f0.clone(), "Db N T Da")], None, "U X U"),
+        // depth 5, hoisted instructions at every level
+        program(
+            &[("X", f0.clone(), "Da Y N"), ("Y", f0.clone(), "N Db Z"), ("Z", f0.clone(), "W Dc T"), ("W", f0.clone(), "E V U"), ("V", f0.clone(), "Da N Db")],
+            None,
+            "U X X",
+        ),
+        // calibrations that differ only in their modifiers
+        program(&[("X", f0.clone(), "N Da dX"), ("dX", f0.clone(), "T T Db"), ("dY", f0.clone(), "U")], None, "X dX dY Y"),
+        // the same calibration used twice in one body and at two depths
+        program(&[("X", f0.clone(), "Y Da Y Z"), ("Y", f0.clone(), "Z Db N"), ("Z", f0.clone(), "Dc T")], None, "X Y Z"),
         Program::new(),
     ];
     for p in &corpus {
@@ -311,8 +415,8 @@ fn run(ctx: &mut Ctx) {
     let n_random = if ctx.quick() { 6000 } else { 400_000 };
     let mut rng = ctx.rng(19);
     let names = ["X", "Y", "Z", "W"];
-    let plain = ["N", "T", "U", "P", "U1", "V"];
-    let hoist = ["Da", "Db", "Dc", "F", "Wf", "E", "G", "C"];
+    let plain = ["N", "T", "U", "P", "U1", "V", "Pe", "Px", "dX", "dY"];
+    let hoist = ["Da", "Db", "Dc", "F", "Wf", "E", "G", "C", "Mc", "Ci", "E2", "E0"];
     for _ in 0..n_random {
         let mut p = Program::new();
         let hoist_pct = *rng.pick(&[0u64, 10, 25, 50]);
@@ -357,9 +461,17 @@ fn run(ctx: &mut Ctx) {
                 }
             }
         }
+        for dname in ["dX", "dY"] {
+            if rng.chance(1, 4) {
+                let body = gen_body(&mut rng, 1, false);
+                p.add_instruction(defcal(dname, f0.clone(), body));
+            }
+        }
         if rng.chance(1, 3) {
             let body = gen_body(&mut rng, 0, false);
-            p.add_instruction(defcal_measure(body));
+            // fixed or variable qubit (the bodies use no qubit variables outside gates)
+            let q = if rng.chance(1, 3) { vq.clone() } else { f0.clone() };
+            p.add_instruction(defcal_measure_on(q, body));
         }
         let len = 1 + rng.below(5);
         for _ in 0..len {
